@@ -116,6 +116,7 @@ type electExtra struct {
 	raw      db.DB
 	sdb      *storage.DB // the storing instance: LRU of two entries
 	stored   []storedElection
+	recent   []storedElection
 	points   []storedPoint
 	seq      int
 	failures int // reported persistence failures (the first few are enough)
@@ -302,10 +303,16 @@ func (x *electExtra) checkElection(what string, producers []types.Address, deleg
 	compare("second instance on the same database, LRU empty", got, gerr)
 	got2, gerr2 := restarted.GetElectionResultByHash(h) // now from that instance's LRU
 	compare("second instance, second read", got2, gerr2)
-	x.stored = append(x.stored, storedElection{h, wantP, wantD, what})
+	if len(x.stored) < 3000 { // re-read after the directory is re-opened (a bounded sample in long runs)
+		x.stored = append(x.stored, storedElection{h, wantP, wantD, what})
+	}
+	x.recent = append(x.recent, storedElection{h, wantP, wantD, what})
+	if len(x.recent) > 4 {
+		x.recent = x.recent[1:]
+	}
 	// (c) the storing instance after its two-entry LRU has moved on
-	if k := len(x.stored) - 4; k >= 0 {
-		old := x.stored[k]
+	if len(x.recent) == 4 {
+		old := x.recent[0]
 		g, e := x.sdb.GetElectionResultByHash(old.hash)
 		if x.failures >= 3 {
 		} else if e != nil || g == nil {
@@ -385,10 +392,11 @@ func (x *electExtra) checkPoint() {
 	want := pointText(p)
 	prefix := byte(c.R.Intn(storage.NumPointTypes))
 	height := []uint64{0, 1, 2, uint64(c.R.Intn(5000)), 1<<32 - 1, 1 << 32, 1<<63 - 1, 1 << 63, 1<<64 - 1, c.R.Uint64()}[c.R.Intn(10)]
-	for _, sp := range x.points { // one value per key
-		if sp.prefix == prefix && sp.height == height {
-			height = uint64(len(x.points)) + 100000
-		}
+	if x.hasPoint(prefix, height) { // one value per key
+		height = uint64(len(x.points)) + 100000
+	}
+	if len(x.points) >= 3000 {
+		return // long runs: the first 3000 points are kept for the re-open check
 	}
 	compare := func(path string, got *storage.Point, err error) {
 		if x.failures >= 3 {
@@ -431,7 +439,7 @@ func (x *electExtra) checkPoint() {
 		c.Fail("point persistence: GetPointByHeight(%d,%d) returns (%v,%v) although only the point of type %d was stored at that height", 1-prefix, height, g, e, prefix)
 	}
 	x.points = append(x.points, storedPoint{prefix, height, want})
-	if k := len(x.points) - 4; k >= 0 {
+	if k := len(x.points) - 4; k >= 0 && len(x.points) < 3000 {
 		old := x.points[k]
 		g, e := x.sdb.GetPointByHeight(old.prefix, old.height)
 		if e != nil || g == nil || pointText(g) != old.text {
